@@ -30,6 +30,7 @@ FAULTS = {
     "src_valueerror": "writef: reading the source raises ValueError (e.g. read of a closed file) before any byte",
     "stat_fails": "write(path): lstat raises EACCES",
     "open_fails": "write(path): open raises EACCES",
+    "readlink_fails": "write(symlink): lstat succeeds, readlink raises EIO (the link became unreadable in between)",
     "badtype": "write(12345) – unsupported argument type",
 }
 
@@ -82,6 +83,8 @@ def failed_write(nold, fault, after, append=False):
                 e.method(z, "write", S.StubPath("src/bad", "file", sizes[k], "bad", fail="stat"), "bad.bin")
             elif fault == "open_fails":
                 e.method(z, "write", S.StubPath("src/bad", "file", sizes[k], "bad", fail="open"), "bad.bin")
+            elif fault == "readlink_fails":
+                e.method(z, "write", S.StubPath("src/unreadable-link", "link", 0, "bad"), "bad.lnk")
             elif fault == "badtype":
                 e.method(z, "write", 12345, "bad.bin")
         except ModelRaise as ex:
@@ -211,6 +214,24 @@ def replay(nold, fault, after, append=False):
                         os.mkfifo(q)  # root ignores modes: use an unreadable kind instead
                         fd = os.open(q, os.O_RDWR)  # keep open() from blocking
                     z.write(q, "bad.bin")
+            elif fault == "readlink_fails":
+                q = os.path.join(d, "unreadable-link")
+                os.symlink("somewhere", q)
+                import py7zr.helpers as H
+                import py7zr.py7zr as P
+
+                saved = (P.readlink, H.readlink)
+
+                def failing(path, *a, **k):
+                    if str(path).endswith("unreadable-link"):
+                        raise OSError(5, "Input/output error")
+                    return saved[1](path, *a, **k)
+
+                P.readlink = H.readlink = failing
+                try:
+                    z.write(q, "bad.lnk")
+                finally:
+                    P.readlink, H.readlink = saved
             elif fault == "badtype":
                 z.write(12345, "bad.bin")
         except Exception as ex:  # noqa
